@@ -136,6 +136,12 @@ func Generate(prop string, prof *Profile, seed int64, run int, opts Options) (*P
 	if shutdown {
 		shutdownAt = n/2 + r.Intn(n/2+1)
 	}
+	for _, st := range g.Prologue() {
+		st := st
+		traceStep(&st)
+		sim.Exec(len(plan.Steps), &st)
+		plan.Steps = append(plan.Steps, st)
+	}
 	for i := 0; i < n; i++ {
 		var st Step
 		if i == shutdownAt && sim.alive {
